@@ -5,6 +5,9 @@ import (
 	"fmt"
 	"strings"
 
+	"github.com/jsightapi/jsight-api-go-library/directive"
+	"verifharness/internal/resolver"
+
 	"verifharness/internal/fw"
 	"verifharness/internal/gen"
 	"verifharness/internal/jsonx"
@@ -17,7 +20,8 @@ func init() {
 		ID:    "C07",
 		Level: "exploration",
 		Rule: "metamorphic: a generated model is rendered twice with the same style - once with parts of it moved into macros (any run of complete top-level blocks or of complete children of INFO, SERVER, URL, a method, a request or a response that a MACRO admits; " +
-			"macros pasting macros to the depth bound; definitions before or after use) and once with everything written in place; if the macro form is accepted the in-place form must be accepted with byte-identical catalog (and vice versa verdicts must agree); " +
+			"macros pasting macros to the depth bound; definitions before or after use) and once with everything written in place; if the macro form is accepted the in-place form must be accepted with byte-identical catalog (a macro form that is refused while its expansion is accepted is outside the statement: counted, not judged); " +
+			"a second twin family takes sequences of directive kinds with parentheses (macro body and host grown at random, any order of children the language admits, PASTE at any depth, pasted once or twice) and compares the macro form with the text obtained by writing the body in place of every PASTE and deleting the definition; " +
 			"an added never-pasted macro must change nothing; PASTE of an undefined macro, a second macro with one name, and every cyclic paste digraph on up to 3 (thorough: 4) macros - reachable or not from a top-level PASTE - must be rejected with a diagnostic, without panic, within the paste-depth budget. " +
 			"distinct_nontrivial = distinct (paste sites by kind, nesting depth reached, outcome)",
 		Assumptions: []string{
@@ -28,6 +32,7 @@ func init() {
 			{Name: "inline", N: constN(5000, 150000), Gen: genModelCase, Eval: c07EvalInline},
 			{Name: "cycles", Stream: c07StreamCycles, Eval: c07EvalReject},
 			{Name: "faults", N: constN(600, 20000), Gen: genModelCase, Eval: c07EvalFaults},
+			{Name: "skeleton-twins", N: constN(30000, 900000), Gen: c07GenSkeleton, Eval: c07EvalSkeleton},
 		},
 		Floors: map[string]int64{"twins_compared": 3000, "cyclic_graphs": 300},
 	})
@@ -102,6 +107,13 @@ func c07EvalInline(t *fw.T, c *fw.Case) {
 	}
 	if om.Outcome == run.Panic || om.Outcome == run.Budget {
 		t.Violation("macro-form-crashes:"+outcomeSig(om), fmt.Sprintf("the macro form %s: %s\n%s", om.Outcome, om.PanicVal, withMacros.Text))
+		return
+	}
+	if om.Outcome == run.Rejected && oi.Outcome == run.Accepted && !run.RuntimeFaultText(om.ErrText) {
+		// The statement is conditional on the macro form being accepted: a macro form that is refused while its
+		// expansion is fine is outside what C07 promises. Counted and sampled, not judged.
+		t.Count("macro_form_rejected_expansion_accepted_not_judged")
+		t.Sample("macro-form-rejected-only", map[string]interface{}{"msg": om.Msg, "macro_form": withMacros.Text})
 		return
 	}
 	if om.Outcome != oi.Outcome {
@@ -282,4 +294,210 @@ func c07EvalFaults(t *fw.T, c *fw.Case) {
 		t.Violation("macro-fault-runtime:"+kind, describe(o))
 	}
 	t.Distinct("fault " + kind + " " + run.MsgTemplate(o.Msg))
+}
+
+
+// ---- skeleton twins: directive-kind sequences, the body written in place by text substitution ----
+
+func c07RenderSkeleton(body, host []int, macroFirst bool) (macroForm, inPlace string) {
+	u := 1000
+	renderSeq := func(seq []int, indent string, paste string) string {
+		var sb strings.Builder
+		for _, s := range seq {
+			switch s {
+			case -1:
+				sb.WriteString(indent + "(\n")
+			case -2:
+				sb.WriteString(indent + ")\n")
+			case -3:
+				sb.WriteString(paste)
+			default:
+				u++
+				t := c06Spellings[s].text
+				n := strings.Count(t, "%d")
+				args := make([]interface{}, n)
+				for i := range args {
+					args[i] = u
+				}
+				sb.WriteString(indent + fmt.Sprintf(t, args...) + "\n")
+			}
+		}
+		return sb.String()
+	}
+	b := renderSeq(body, "  ", "")
+	macro := "MACRO @mac\n(\n" + b + ")\n"
+	u0 := u
+	h := renderSeq(host, "", "PASTE @mac\n")
+	u = u0
+	hi := renderSeq(host, "", b)
+	if macroFirst {
+		return "JSIGHT 0.3\n" + macro + h, "JSIGHT 0.3\n" + hi
+	}
+	return "JSIGHT 0.3\n" + h + macro, "JSIGHT 0.3\n" + hi
+}
+
+func c07EvalSkeleton(t *fw.T, c *fw.Case) {
+	body, host := decodeSeq(c.Meta["body"]), decodeSeq(c.Meta["host"])
+	mf, ip := c07RenderSkeleton(body, host, c.Meta["macro_first"] == "true")
+	dm := run.Single([]byte(mf))
+	dm.FixedSeed = true
+	di := run.Single([]byte(ip))
+	di.FixedSeed = true
+	c.Docs = []run.Doc{dm, di}
+	om := t.Exec(dm)
+	if om.Outcome == run.Panic || om.Outcome == run.Budget {
+		t.Violation("macro-form-crashes:"+outcomeSig(om), fmt.Sprintf("the macro form %s: %s\n%s", om.Outcome, om.PanicVal, mf))
+		return
+	}
+	t.Count("skeleton_macro_forms_run")
+	if om.Outcome != run.Accepted {
+		t.Count("skeleton_macro_form_rejected")
+		t.Count("skeleton_rej:" + run.MsgTemplate(om.Msg))
+		t.Sample("skeleton-rejected/"+run.MsgTemplate(om.Msg), map[string]interface{}{"macro_form": mf, "result": describe(om)})
+		return
+	}
+	oi := t.Exec(di)
+	t.Count("twins_compared")
+	t.Count("skeleton_twins_compared")
+	if oi.Outcome != run.Accepted {
+		t.Violation("verdict-differs:accepted-vs-"+oi.Outcome+":"+run.MsgTemplate(oi.Msg), fmt.Sprintf("the macro form is accepted, the body written in place is not: %s\n--- macro form\n%s\n--- in-place form\n%s", describe(oi), mf, ip))
+		return
+	}
+	if !bytes.Equal(om.JSON, oi.JSON) {
+		where, cls := "", "?"
+		a, e1 := jsonx.Parse(om.JSON)
+		b, e2 := jsonx.Parse(oi.JSON)
+		if e1 == nil && e2 == nil {
+			where = jsonx.Diff(a.Root, b.Root, "$")
+			cls = diffClass(where)
+		}
+		t.Violation("catalog-differs:"+cls, fmt.Sprintf("pasting differs from writing the body in place: %s\n--- macro form\n%s\n--- in-place form\n%s", where, mf, ip))
+		return
+	}
+	t.Distinct("skeleton " + c.Meta["body"])
+	t.Sample("skeleton-twins", map[string]interface{}{"macro_form": mf})
+}
+
+
+// c07GenSkeleton grows a macro body and a host sequence one item at a time; an item is kept only while the reference
+// resolver still finds a place for everything in the host WITH THE BODY WRITTEN IN PLACE of each PASTE, so that most
+// expansions get past context resolution and many documents are accepted as a whole.
+func c07GenSkeleton(r *xrand.Rand, idx int, tier string) *fw.Case {
+	macroKinds := []int{19, 20, 22, 23, 24, 25, 20, 19, 22, 18, 2, 3, 6, 13, 15, 4}
+	hostKinds := []int{7, 13, 14, 16, 19, 20, 20, 5, 24, 22, 18, 23, 25, 17}
+	var body []int
+	// every third case treats PASTE as opaque while growing: the body only has to fit into a MACRO, so that written in
+	// place it is usually NOT resolvable - the library must then refuse the macro form too (accepting it is the violation)
+	opaque := idx%3 == 2
+	evOf := func(seq []int, inMacro bool) []resolver.Event {
+		var ev []resolver.Event
+		if inMacro {
+			ev = append(ev, resolver.Event{Type: resolver.EvDirective, Kind: directive.Macro}, resolver.Event{Type: resolver.EvOpen})
+		}
+		var add func(seq []int, expand bool)
+		add = func(seq []int, expand bool) {
+			for _, s := range seq {
+				switch s {
+				case -1:
+					ev = append(ev, resolver.Event{Type: resolver.EvOpen})
+				case -2:
+					ev = append(ev, resolver.Event{Type: resolver.EvClose})
+				case -3:
+					if expand {
+						add(body, false)
+					}
+				default:
+					ev = append(ev, resolver.Event{Type: resolver.EvDirective, Kind: c06Spellings[s].kind, HasPath: c06Spellings[s].hasPath})
+				}
+			}
+		}
+		add(seq, !inMacro && !opaque)
+		return ev
+	}
+	okSoFar := func(seq []int, inMacro bool) bool {
+		_, rej := resolver.Resolve(evOf(seq, inMacro))
+		return rej == resolver.OK || rej == resolver.UnclosedContext
+	}
+	prefixes := [][]int{{}, {7}, {7, 8}, {13}, {14, 19}, {13, 20}, {1}, {5}, {7, 9, 20}, {14}}
+	prefix := prefixes[r.Intn(len(prefixes))]
+	if len(prefix) > 0 && prefix[0] == 7 { // inside a URL block path-less methods make sense
+		macroKinds = append(macroKinds, 8, 9, 10, 12)
+	}
+	maxPastes := 1
+	if r.Chance(1, 4) {
+		maxPastes = 2
+	}
+	grow := func(start []int, kinds []int, n int, inMacro bool) []int {
+		seq := append([]int{}, start...)
+		open, pastes := 0, 0
+		for _, x := range start {
+			if x == -3 {
+				pastes++
+			}
+		}
+		ok := func(cand []int) bool {
+			if inMacro {
+				// the body must fit both in a MACRO and, written in place, behind the chosen prefix
+				return okSoFar(cand, true) && (opaque || okSoFar(append(append([]int{}, prefix...), cand...), false))
+			}
+			return okSoFar(cand, false)
+		}
+		for i := 0; i < n; i++ {
+			for try := 0; try < 8; try++ {
+				var cand []int
+				switch {
+				case !inMacro && pastes < maxPastes && r.Chance(1, 3):
+					cand = append(append([]int{}, seq...), -3)
+				case open > 0 && r.Chance(1, 3):
+					cand = append(append([]int{}, seq...), -2)
+				default:
+					k := kinds[r.Intn(len(kinds))]
+					cand = append(append([]int{}, seq...), k)
+					if !c06Spellings[k].noOpen && r.Chance(1, 4) {
+						cand = append(cand, -1)
+					}
+				}
+				if ok(cand) {
+					switch cand[len(cand)-1] {
+					case -1:
+						open++
+					case -2:
+						open--
+					case -3:
+						pastes++
+					}
+					seq = cand
+					break
+				}
+			}
+		}
+		for open > 0 {
+			seq = append(seq, -2)
+			open--
+		}
+		if !inMacro && pastes == 0 {
+			placed := false
+			for _, pos := range r.Perm(len(seq) + 1) {
+				if pos < len(seq) && seq[pos] == -1 {
+					continue // a '(' after PASTE would belong to the PASTE: that has no in-place counterpart
+				}
+				cand := append(append(append([]int{}, seq[:pos]...), -3), seq[pos:]...)
+				if _, rej := resolver.Resolve(evOf(cand, false)); rej == resolver.OK {
+					seq, placed = cand, true
+					break
+				}
+			}
+			if !placed {
+				seq = append(seq, -3)
+			}
+		}
+		return seq
+	}
+	body = grow(nil, macroKinds, r.Range(1, 5), true)
+	hostStart := append([]int{}, prefix...)
+	if r.Chance(2, 3) {
+		hostStart = append(hostStart, -3)
+	}
+	host := grow(hostStart, hostKinds, r.Range(0, 6), false)
+	return &fw.Case{Meta: map[string]string{"body": encodeSeq(body), "host": encodeSeq(host), "macro_first": fmt.Sprint(r.Bool())}, Docs: []run.Doc{{}}}
 }
